@@ -21,13 +21,17 @@ EXPAND_ENV = dict(GRAFANA_NET_ADDR="http://gnet.example/metrics", GRAFANA_NET_AP
 GNET_ADDR = "http://127.0.0.1:1/metrics"     # nothing listens on port 1: the route keeps retrying, harmlessly
 BOOL_NAMES = ["sslverify", "spool", "blocking", "pickle", "cache", "dropRaw"]
 DEVIATIONS_CASES = ["swap_buf", "dest_shift", "substr_dropped", "bool_inverted", "cache_same_default"]
+# every numeric option, by entry kind: the value class "explicit zero" (Config.tla section 2a) must be generated for each
+DEST_INTS = ["flush", "reconn", "connbuf", "iobuf", "spoolbuf", "spoolmaxbytesperfile", "spoolsyncevery", "spoolsyncperiod",
+             "spoolsleep", "unspoolsleep"]
+GNET_NUMS = ["concurrency", "bufSize", "flushMaxNum", "flushMaxWait", "timeout", "orgId", "errBackoffMin", "errBackoffFactor"]
 
 
 def base_consts(**kw):
     c = dict(Mode="cases", Kinds=set(ALL_KINDS), RouteTypes=set(ALL_TYPES), MaxDests=2, MaxOpts=1, NVals=1,
              DeepKinds=set(), DeepTypes=set(), DeepDests=0, DeepOpts=0,
              Alphabet={"$"}, MaxLen=0, Deviation="",
-             MaxList=1, FullNames=set(), RandK=1, RandOpts=1, RandN=1)
+             MaxList=1, FullNames=set(), RandK=1, RandOpts=1, RandN=1, Zeros="none")
     c.update(kw)
     return c
 
@@ -90,6 +94,7 @@ def nonvacuity(ctx, deviations_cases, with_expand=True, with_lists=True):
     want = {"swap_buf": "EachOptionItsOwnField", "dest_shift": "EachOptionItsOwnField",
             "substr_dropped": "EachOptionItsOwnField", "bool_inverted": "EachOptionItsOwnField",
             "cache_same_default": "CacheAsymmetry"}
+    zkw = dict(Kinds={"route", "gnet"}, RouteTypes={"sendAllMatch"}, MaxDests=1, MaxOpts=1, Zeros="all")
     jobs = []
 
     def dev(d, c, inv):
@@ -102,6 +107,13 @@ def nonvacuity(ctx, deviations_cases, with_expand=True, with_lists=True):
     for d in deviations_cases:
         c = base_consts(Kinds={"agg", "route"}, RouteTypes={"sendAllMatch"}, MaxDests=2, MaxOpts=1, Deviation=d)
         jobs.append((d, dev(d, c, [want[d]])))
+    # "an option given as 0 means: not given" -- and the documented reading passes on the same space
+    jobs.append(("zero_means_unset", dev("zero_means_unset", base_consts(Deviation="zero_means_unset", **zkw),
+                                         ["ExplicitZeroHonoured"])))
+
+    def zero_ok():
+        return ctx.tlc("Config", "Config_sanity.cfg", consts=base_consts(**zkw), workers=1, count=False, timeout=600)
+    jobs.append(("zero_documented", zero_ok))
     if with_expand:
         c = base_consts(Mode="expand", Alphabet={"$", "{", "}", "1", "HOST"}, MaxLen=4, Deviation="os_expand")
         jobs.append(("os_expand", dev("os_expand", c, ["OnlyDocVarsSubstituted"])))
@@ -111,7 +123,7 @@ def nonvacuity(ctx, deviations_cases, with_expand=True, with_lists=True):
                         FullNames=set(BOOL_NAMES), Deviation="section_leak")
         jobs.append(("section_leak", dev("section_leak", c, ["UnsetTakesDefaultInList", "OptionStaysInItsEntry",
                                                              "EntriesIndependent"])))
-    parallel(ctx, jobs, par=3)
+    parallel(ctx, jobs, par=5)
 
 
 def entry_sig(c):
@@ -121,6 +133,7 @@ def entry_sig(c):
 def wrap(c):
     """a single entry (Mode "cases") as a list of one"""
     return dict(section="route" if c["kind"] in ("route", "gnet") else c["kind"], entries=[c], forms=c["forms"],
+                reject=c["reject"],
                 added={k: v for k, v in c["toml"].items() if k.startswith("added_")})
 
 
